@@ -101,6 +101,7 @@ def jstep (j : J) : Ev → J
       if !j.q.isEmpty && !want then j.flag "pending-without-write-interest" else j
   | .stClosed => if j.dead then j else j.flag "closed-without-close-event"
   | .dump _ => j
+  | .snoop _ _ => j
   | .fault w => j.flag ("crash " ++ w)
 
 def judgeFrom (j : J) (evs : List Ev) : J := evs.foldl jstep j
